@@ -626,7 +626,8 @@ func (s *scanner) readValueDepth(depth int) (pdf.Object, error) {
 		if depth >= maxValueDepth {
 			return nil, parseError{}
 		}
-		var arr pdf.Array
+		// not a nil Array for "[]": pdf.Format would write that as "null"
+		arr := pdf.Array{}
 		for {
 			if err := s.SkipWhiteSpace(); err != nil {
 				return nil, err
